@@ -25,6 +25,14 @@ def parseUp : String → Option Bool
   | "d" => some false
   | _ => none
 
+/-- `r0.2.5` / `r-`: ids of the packets whose report continuation sends a stanza -/
+def parseRe (s : String) : Option (List Nat) :=
+  match s.toList with
+  | 'r' :: rest =>
+    let t := String.ofList rest
+    if t = "-" then some [] else (t.splitOn ".").mapM String.toNat?
+  | _ => none
+
 def parseOp : List String → Option Op
   | ["send", k, u] =>
     match k, parseUp u with
@@ -32,6 +40,16 @@ def parseOp : List String → Option Op
     | "n", some u => some (.send false u)
     | _, _ => none
   | ["ack", h] => h.toNat?.map Op.ack
+  | ["ack", h, r, u] =>
+    match h.toNat?, parseRe r, parseUp u with
+    | some h, some r, some u => some (.ackRe h r u)
+    | _, _, _ => none
+  | ["resumed", h, r, u] =>
+    match h.toNat?, parseRe r, parseUp u with
+    | some h, some r, some u => some (.resumedRe h r u)
+    | _, _, _ => none
+  | ["resumeFailed", "-"] => some (.resumeFailed none)
+  | ["resumeFailed", h] => h.toNat?.map fun h => Op.resumeFailed (some h)
   | ["req", u] => (parseUp u).map Op.ackReq
   | ["recv", "m"] => some (.recv .message)
   | ["recv", "p"] => some (.recv .presence)
